@@ -11,8 +11,8 @@ def run(ctx):
     rel = vlib.build_harness(profile="release", target_sub="release")
     ctx.rule = ("executions generated from the specification (C01/C06 model families, random models/texts/histories, writer and filter "
                 "cases) run in a build with debug assertions (get_unchecked*/unwrap_unchecked/str::get_unchecked preconditions and the "
-                "crate's debug_assert!s are checked; a failure aborts or panics) and in an optimised build; any panic/abort is a "
-                "violation, and Trace_Pair requires both builds to observe the same values (thorough: also an AddressSanitizer build); "
+                "crate's debug_assert!s are checked; a failure aborts or panics) and in an optimised build; any panic/abort, and any "
+                "String left holding invalid UTF-8 by the byte-level writers, is a violation, and Trace_Pair requires both builds to observe the same values (thorough: also an AddressSanitizer build); "
                 "design level: MC_ScorerImpl proves IndicesInRange and MatchEndsOnCharBoundary on the implementation-shaped scorer "
                 "model; non-trivial = history with a non-bias score")
     # design level
@@ -87,6 +87,9 @@ def run(ctx):
             elif any(s["res"] == "panic" or s.get("proj") == "panic" or (isinstance(s.get("proj"), dict) and
                      any(s["proj"].get(k) == "panic" for k in ("tokens", "wtok", "wpart", "scores"))) for s in o.get("steps", [])):
                 bad = f"{name} build: a call panicked"
+            elif any(isinstance(s.get("proj"), dict) and (s["proj"].get("wtok_utf8") is False or s["proj"].get("wpart_utf8") is False)
+                     for s in o.get("steps", [])):
+                bad = f"{name} build: a writer left invalid UTF-8 in the caller's String (unchecked byte-level writes)"
         ctx.evaluations += 1
         if "steps" in x and any(isinstance(s["proj"], dict) and len(set(s["proj"].get("scores") or [])) > 1 for s in x["steps"]):
             ctx.nontriv(d["id"])
